@@ -107,6 +107,16 @@ Proof. vm_compute. reflexivity. Qed.
 Example C20_audit_rejects_untranslated_outer_scope :
   audit [] [] [] [] [mkCloneField "otto.objectStash" "outr" "otto.stasher" true "verbatim" "otto.clone" "stash.go" 53] [] = false.
 Proof. vm_compute. reflexivity. Qed.
+Example C20_audit_rejects_store_to_singleton_node_in_compiler :
+  audit [mkVar "otto.nullLiteral" "*otto.nodeLiteral" true "cmpl_parse.go" 14
+           [mkSite KEscape "otto.parseExpression" "cmpl_parse.go" 137 false "returned"]]
+        [mkField "otto.nodeLiteral" "idx" "file.Idx" "cmpl_parse.go" 473
+           [mkSite KAssign "otto.parseExpression" "cmpl_parse.go" 71 false "="]] [] [] [] [] = false.
+Proof. vm_compute. reflexivity. Qed.
+Example C20_audit_accepts_store_to_fresh_node_in_compiler :
+  audit [] [mkField "otto.nodeBranchStatement" "label" "string" "cmpl_parse.go" 400
+           [mkSite KAssign "otto.parseStatement" "cmpl_parse.go" 218 false "="]] [] [] [] [] = true.
+Proof. vm_compute. reflexivity. Qed.
 Example C20_audit_accepts_carried_setting :
   audit [] [] [] [] [mkCloneField "otto.runtime" "random" "func() float64" false "verbatim" "otto.clone" "clone.go" 21] [] = true.
 Proof. vm_compute. reflexivity. Qed.
